@@ -5,10 +5,13 @@ use std::sync::{
     atomic::{AtomicU64, Ordering},
     Arc,
 };
+#[cfg(not(kani))]
 use tokio::{
     fs::{File, OpenOptions},
     io::AsyncWriteExt,
 };
+#[cfg(kani)]
+use iggy::verif_model::fs::{io_model::AsyncWriteExt, File, OpenOptions};
 use tracing::trace;
 
 /// A dedicated struct for writing to the index file.
